@@ -24,11 +24,11 @@ Laws ==
   /\ ToNat(Add(V(a), V(b))) = U(a + b)
   /\ ToNat(Sub(V(a), V(b))) = U(a - b)
   /\ ToNat(Neg(V(a))) = U(-a)
-  /\ ToNat(Not(V(a))) = M - 1 - a
+  /\ ToNat(BNot(V(a))) = M - 1 - a
   /\ ((W = 8 \/ a <= 32767) => ToNat(Mul(V(a), V(b))) = U(a * b))
-  /\ ToNat(And(V(a), V(b))) = AndI(a, b, 0)
-  /\ ToNat(Or(V(a), V(b))) = OrI(a, b, 0)
-  /\ ToNat(Xor(V(a), V(b))) = XorI(a, b, 0)
+  /\ ToNat(BAnd(V(a), V(b))) = AndI(a, b, 0)
+  /\ ToNat(BOr(V(a), V(b))) = OrI(a, b, 0)
+  /\ ToNat(BXor(V(a), V(b))) = XorI(a, b, 0)
   /\ LtU(V(a), V(b)) = (a < b)
   /\ LtS(V(a), V(b)) = (S(a) < S(b))
   /\ IsNeg(V(a)) = (S(a) < 0)
